@@ -2,13 +2,15 @@
 # usage: tryseed.sh <patch.diff> <property> [tier]  - apply a seeded change to /repo, run the check, undo the change
 set -u
 P=$1; ID=$2; T=${3:-quick}
+# a patch rebased onto the fixed tree takes precedence
+if [ -f "$(dirname $P)/patch.rebased.diff" ]; then P="$(dirname $P)/patch.rebased.diff"; fi
 if ! git -C /repo apply --check "$P" 2>/dev/null; then
   if ! git -C /repo apply -3 --check "$P" 2>/dev/null; then echo "PATCH DOES NOT APPLY: $P"; exit 3; fi
 fi
 git -C /repo apply "$P" || git -C /repo apply -3 "$P"
 /verif/check $ID $T > /tmp/tryseed.$$.log 2>&1
 rc=$?
-git -C /repo checkout -- . ; git -C /repo reset -q
+git -C /repo reset -q; git -C /repo checkout -- .
 grep -E "^VIOLATION|^  clause=|^$ID |ENGINE" /tmp/tryseed.$$.log | head -12
 echo "exit=$rc"
 rm -f /tmp/tryseed.$$.log
